@@ -66,6 +66,12 @@ def plan(tier):
             "blk_distinguishes_grow_without_neg_carry", "blk_distinguishes_add_offset_sign", "blk_distinguishes_hin_sign",
             # builder / tables on the block-based matcher, builder object reused and re-configured
             "long_wildcard_swept_over_block_seams", "long_ambig_on_block_first_rows", "builder_reused_with_redefinition",
+            # objects and iterators as values, other orders, Default/Debug
+            "object_cloned_mid_history_both_continue", "clone_from_into_used_object", "same_searches_two_orders",
+            "builder_cloned_mid_history", "builder_serde_roundtrip_mid_history", "default_object_exercised",
+            "iterator_forked_after_j_items", "iterator_consumed_via_count", "iterator_consumed_via_last",
+            "iterator_consumed_via_nth", "iterator_consumed_via_skip", "iterator_consumed_via_step_by",
+            "iterator_consumed_via_size_hint",
             # ukkonen
             "cost_nonzero_diagonal", "nonunit_cost", "reuse_mixed_lengths", "capacity_below_m",
             # dist
@@ -82,7 +88,7 @@ def plan(tier):
                 "cost and cost tables with entries 0..3, required class: non-zero diagonal (a symbol does not match itself)."
                 " MyersBuilder: block-based matchers with a text wildcard swept over every position of an occurrence and an ambiguous "
                 "pattern symbol on the first row of every block; ONE builder object re-configured between builds (same ambiguity byte "
-                "widened, narrowed, reset; wildcard added), every matcher judged under the call list at build time (last ambig() per byte counts). dist: all pairs over {a,b} up to "
+                "widened, narrowed, reset; wildcard added), every matcher judged under the call list at build time (last ambig() per byte counts); the builder cloned and sent through serde_json mid-history, all three continue. Values: every Myers<T> / long::Myers<T> / Ukkonen object is Debug-formatted and clone()d in the middle of its run (Myers also clone_from() into a used object of another pattern kept from an earlier run), the remaining searches are answered in turn by the copies and the original and then repeated in reverse order; long::Myers::default() must refuse or answer like the empty pattern. Iterators: find_all_end results forked by clone() after j items (both tails judged), consumed through count/last/nth/skip/step_by, size_hint checked after n items (Myers and Ukkonen); the text is handed over as slice iterator, filter, flat_map, take_while (inexact size hints) or owned items. dist: all pairs over {a,b} up to "
                 "length 3/4, lengths around the SIMD lanes up to 129 (300 thorough), bounds {0,d-1,d,d+1,max-1,max,"
                 "max+1,u32::MAX}, Hamming up to 3000 symbols. distinct_nontrivial counts runs (distinct by construction: "
                 "own case number and seed stream) in which some threshold selected a non-empty proper subset of the end "
